@@ -218,6 +218,15 @@ prop("C16", "A follower's cache is a faithful copy of the leader's stream", "exp
 
 CLUSTER_ASSUME = BASE_ASSUME + ["fake/ClusterSet: cluster double whose nodes share one slot table and answer MOVED / ASK / TRYAGAIN / CROSSSLOT per the cluster specification (MIGRATING/IMPORTING, one-shot ASKING kept through MULTI, queue-time and EXEC-time checks), keys per ref/keyspec, slots per ref/hashslot; a node executes a command only where the specification lets it", "log-only execution with one cluster-wide request sequence"]
 
+prop("C14", "Bidirectional replay resumes from the contiguous committed prefix", "exploration",
+     "a case = target {standalone, 2-3 node cluster with generated bounds} with per-node request latency (0 / 0.3 / 2 / 6 ms, so that lanes complete out of order) x replay mode {sync, pipeline, parallel (0-3 lanes)} x window 1/2/4/16 x stream of 2-14 replay units (single SET or MULTI/EXEC of SETs on one slot, PINGs in between) x 0-2 source pauses (20 / 110 / 130 ms: the frontier is flushed every 100 ms) x 1-4 generated runs plus a final complete run and a final start. A run = (re)start {process: fresh output and namespace resolution; input: same output asked again} + StartPoint + Send from the named offset, with the source having produced a generated prefix of the units (possibly nothing new), ended by {crash: the target processes exactly N more requests, start-up requests included; stop: graceful cancel after N requests; none: everything produced applied, then a 0-230 ms linger}; optionally the n-th journal deletion is answered with an error. fault_points = runs executed. "
+     "non-trivial = distinct case in which a start resumed mid-stream after a crash or a mid-way stop. "
+     "Oracle (target's execution history; committed(u) = a transaction with u's marker executed): at every start the resume offset is the initial offset or the end of a committed unit, no uncommitted unit ends at or before it, it never decreases from one start to the next, StartPoint/start-up never fail on a healthy target and never fall back to a full sync; sync mode: resume = end of the last committed unit and no unit is committed twice over the whole history; every transaction with business commands is a marker + exactly one unit's commands + that unit's recovery record (latest / journal record + index entry); every stored frontier names a unit boundary with no uncommitted unit at or before it at that moment; after the final complete run every unit was committed at least once.",
+     [{"pkg": "c14", "test": "TestC14",
+       "quick": {"checks": 320, "shards": 16, "timeout": 1200},
+       "thorough": {"checks": 16000, "shards": 16, "timeout": 14400}}],
+     CLUSTER_ASSUME + ["a crash is the target (or the link to it) dying after exactly N processed requests with its state intact; it also stands for the tool being killed at that moment", "the initial full synchronisation replays an empty snapshot taken at offset 1000", "streams use database 0 only"], max_inconclusive=1)
+
 prop("C18", "Cluster-mode bidirectional units are single-slot or refused, never best-effort", "exploration",
      "a case = 1-3 node cluster with generated slot bounds x replay mode {sync, pipeline, parallel (1-3 lanes)} x window 1/2/8 x optional prefix blacklist (1-3 of 7 prefixes that cut keys out of transactions) x stream of 1-10 source units (single commands and MULTI/EXEC of 1-4 commands, PINGs in between) over 28 command shapes of the reference key table (1-key, 2-key, n-key, STORE destinations, numkeys layouts) with keys in 9 hash-tag shapes per tag and 10 'exotic' brace arrangements (empty tag, unclosed, nested, second tag, binary bytes, empty key); one case in three carries one unit with mixed-slot keys or a command whose keys cannot be determined (unknown name, malformed numkeys). "
      "non-trivial = distinct case with a unit of >= 2 keys or a unit that must be refused. "
